@@ -123,7 +123,7 @@ def check(case, ctx):
     sx = np.linalg.svd(X, compute_uv=False) ** 2
     lam = np.r_[sx, np.zeros(max(0, k + 1 - len(sx)))]
     with ctx.lib("fit(mixing=1)"):
-        p1 = PCovR(mixing=1.0, n_components=k, space=space, regressor=reg, svd_solver="full").fit(X, Y)
+        p1 = PCovR(mixing=1 if case["cseed"] % 2 else 1.0, n_components=k, space=space, regressor=reg, svd_solver="full").fit(X, Y)     # (an int end point is a legal mixing)
         A = p1.transform(X)
         RA = p1.inverse_transform(A)
     pca = PCA(n_components=k, svd_solver="full").fit(X)
@@ -153,7 +153,7 @@ def check(case, ctx):
         if kk >= ry:
             lr = LinearRegression(fit_intercept=False)
             with ctx.lib("fit(mixing=0,LR)"):
-                p0 = PCovR(mixing=0.0, n_components=kk, space=space, regressor=lr, svd_solver="full").fit(X, Y)
+                p0 = PCovR(mixing=0 if case["cseed"] % 2 else 0.0, n_components=kk, space=space, regressor=lr, svd_solver="full").fit(X, Y)
                 pr = np.asarray(p0.predict(X)).reshape(n, -1)
             ctx.close("regression-limit", pr, ref, 1e-6 * max(1.0, np.abs(Y).max()), "mixing=0 predictions vs X pinv(X) Y")
             ctx.count("regression_limit_compared")
